@@ -378,4 +378,115 @@ func runC15(c *core.Ctx) {
 			report("lease.Lease.IsExpired", p.IsExpired())
 		}
 	})
+
+	c15Lifetime(c)
+}
+
+// c15Lifetime runs only in the build with the runtime's virtual clock (core.FakeTime). The expiry
+// verdicts are functions of the CURRENT time: structures expiring 24-72 h ahead are built, parsed
+// and asked (not expired), then the process sleeps past their expiry by another 24-48 h — which
+// takes no real time — and the same values, and fresh parses of the same bytes, are asked again
+// (expired). A verdict computed against a clock value captured earlier (at package initialisation,
+// at parse time, at the first call) does not flip.
+func c15Lifetime(c *core.Ctx) {
+	if !core.FakeTime {
+		return
+	}
+	c.Job("lifetime", c.N(48, 480), func(i int, r *core.Rand) {
+		c.Eval(1)
+		now := time.Now()
+		ahead := time.Duration(24*3600+r.Pick(48*3600)) * time.Second
+		at := now.Add(ahead).Unix()
+		type probe struct {
+			site    string
+			expired func() bool
+		}
+		var probes []probe
+		add := func(site string, f func() bool) { probes = append(probes, probe{site, f}) }
+		off := uint16(1 + r.Pick(65535))
+		pub := uint32(at - int64(off))
+		l2, _ := gen.LeaseSet2(r)
+		l2.Published, l2.Expires = pub, off
+		if l2.Offline != nil {
+			l2.Offline.Expires = uint32(at + 86400*400) // the transient key outlives the leaseset
+		}
+		l2b := l2.Encode()
+		ml, _ := gen.MetaLeaseSet(r)
+		ml.Published, ml.Expires = pub, off
+		if ml.Offline != nil {
+			ml.Offline.Expires = uint32(at + 86400*400)
+		}
+		ml.Entries[0].Expires = uint32(at)
+		mlb := ml.Encode()
+		el, _ := gen.EncryptedLeaseSet(r)
+		el.Published, el.Expires = pub, off
+		if el.Offline != nil {
+			el.Offline.Expires = uint32(at + 86400*400)
+		}
+		elb := el.Encode()
+		o := gen.Offline(r, 7)
+		o.Expires = uint32(at)
+		ob := o.Encode()
+		m2 := gen.Lease2(r)
+		m2.EndS = uint32(at)
+		m2b := m2.Encode()
+		m1 := gen.Lease(r)
+		m1.EndMs = uint64(at) * 1000
+		m1b := m1.Encode()
+		parseAll := func(tag string) {
+			if p, _, err := lease_set2.ReadLeaseSet2(l2b); err == nil {
+				add("lease_set2.LeaseSet2.IsExpired"+tag, p.IsExpired)
+			}
+			if p, _, err := meta_leaseset.ReadMetaLeaseSet(mlb); err == nil {
+				add("meta_leaseset.MetaLeaseSet.IsExpired"+tag, p.IsExpired)
+				if e, err := p.GetEntry(0); err == nil {
+					add("meta_leaseset.MetaLeaseSetEntry.IsExpired"+tag, e.IsExpired)
+				}
+			}
+			if p, _, err := encrypted_leaseset.ReadEncryptedLeaseSet(elb); err == nil {
+				add("encrypted_leaseset.EncryptedLeaseSet.IsExpired"+tag, p.IsExpired)
+			}
+			if p, _, err := offline_signature.ReadOfflineSignature(ob, 7); err == nil {
+				add("offline_signature.OfflineSignature.IsExpired"+tag, p.IsExpired)
+			}
+			if p, _, err := lease.ReadLease2(m2b); err == nil {
+				add("lease.Lease2.IsExpired"+tag, p.IsExpired)
+			}
+			if p, _, err := lease.ReadLease(m1b); err == nil {
+				add("lease.Lease.IsExpired"+tag, p.IsExpired)
+			}
+		}
+		in := []byte(fmt.Sprint(at))
+		c.Call("lifetime/parse", in, func() { parseAll("") })
+		sh := gen.Shape{"class": "process-lifetime", "ahead_h": int(ahead / time.Hour)}
+		for _, p := range probes {
+			p := p
+			c.Call(p.site, in, func() {
+				if p.expired() {
+					c.Violate(p.site, "expiry-verdict-wrong-with-a-day-of-margin", sh, in, fmt.Sprintf("expires %v after now, reported expired", ahead))
+				}
+			})
+		}
+		n0 := len(probes)
+		// ... the process lives on, past the expiry by at least another day
+		past := ahead + time.Duration(24*3600+r.Pick(24*3600))*time.Second
+		time.Sleep(past)
+		c.Call("lifetime/parse-again", in, func() { parseAll(" (parsed after the expiry)") })
+		for k, p := range probes {
+			p := p
+			held := k < n0
+			c.Call(p.site, in, func() {
+				if !p.expired() {
+					s2 := gen.Shape{"class": "process-lifetime", "value_held_since_before_expiry": held}
+					c.Violate(p.site, "expiry-verdict-wrong-with-a-day-of-margin", s2, in,
+						fmt.Sprintf("the process has lived %v beyond the expiry (virtual clock); still reported NOT expired", past-ahead))
+				}
+			})
+		}
+		c.BucketN("lifetime/verdicts-before-and-after-expiry", int64(n0+len(probes)))
+		c.Nontrivial([]byte("lifetime"), in)
+		if i == 0 {
+			c.Sample(gen.Shape{"virtual_clock_start": now.UTC().String(), "expiry_ahead": ahead.String(), "slept": past.String(), "probes": len(probes)})
+		}
+	})
 }
